@@ -4,6 +4,7 @@ import (
 	"fmt"
 	"go/token"
 	"go/types"
+	"sort"
 
 	"golang.org/x/tools/go/ssa"
 )
@@ -26,6 +27,7 @@ func (f *FnEnc) setVal(fr *Frame, v ssa.Value, x Val) {
 }
 
 func (f *FnEnc) instr(fr *Frame, st *State, R string, in ssa.Instruction) {
+	f.eqState = st // (interface comparisons load boxed values)
 	switch in := in.(type) {
 	case *ssa.DebugRef:
 	case *ssa.Alloc:
@@ -385,6 +387,8 @@ func (f *FnEnc) binop(R string, op token.Token, x, y Val, rt types.Type, pos tok
 			r := f.ufVal("sconcat", rt, x, y)
 			f.c.assume(R, eq("(slen "+r.L[0]+")", "(bvadd (slen "+x.L[0]+") (slen "+y.L[0]+"))"))
 			f.c.assume(R, "(bvult (slen "+r.L[0]+") "+bv64(maxLen)+")")
+			// the bytes of a concatenation
+			f.c.assume(R, "(forall ((i!q (_ BitVec 64))) (! (= (sbyte "+r.L[0]+" i!q) (ite (bvult i!q (slen "+x.L[0]+")) (sbyte "+x.L[0]+" i!q) (sbyte "+y.L[0]+" (bvsub i!q (slen "+x.L[0]+"))))) :pattern ((sbyte "+r.L[0]+" i!q))))")
 			return r
 		case token.LSS, token.LEQ, token.GTR, token.GEQ:
 			return f.ufVal("scmp_"+op.String(), rt, x, y)
@@ -542,6 +546,7 @@ func (f *FnEnc) valEq(x, y Val) string {
 		if x.L[0] == "0" {
 			return eq(y.L[0], "0")
 		}
+		return f.ifaceEq(x, y)
 	}
 	if _, ok := x.T.Underlying().(*types.Slice); ok {
 		// only comparison with nil is legal
@@ -573,6 +578,36 @@ func (f *FnEnc) valEq(x, y Val) string {
 		es = append(es, eq(x.L[i], y.L[i]))
 	}
 	return and(es...)
+}
+
+// ifaceEq is == on two interface values: equal dynamic types and equal
+// dynamic values.  Pointer-shaped dynamic types compare by reference; boxed
+// ones by content (decided here for the basic types, left open - an
+// uninterpreted predicate - for other boxed types, e.g. structs).
+func (f *FnEnc) ifaceEq(x, y Val) string {
+	sameRef := and(eq(x.L[1], y.L[1]), eq(x.L[2], y.L[2]), eq(x.L[3], y.L[3]))
+	var tags []int
+	for n := range f.c.boxedBasic {
+		tags = append(tags, n)
+	}
+	sort.Ints(tags)
+	st := f.eqState
+	var cases, known []string
+	for _, n := range tags {
+		t := f.c.boxedBasic[n]
+		isT := eq(x.L[0], fmt.Sprint(n))
+		known = append(known, isT)
+		if st == nil {
+			continue
+		}
+		xv := f.load(st, t, Addr{Ref: x.L[1], Idx: x.L[2], Sub: x.L[3]})
+		yv := f.load(st, t, Addr{Ref: y.L[1], Idx: y.L[2], Sub: y.L[3]})
+		cases = append(cases, and(isT, f.valEq(xv, yv)))
+	}
+	f.c.declareFun("ifaceboxeq", []string{SInt, SInt, SBV64, SBV64, SInt, SBV64, SBV64}, SBool)
+	other := and(not(or(known...)), app("ifaceboxeq", x.L[0], x.L[1], x.L[2], x.L[3], y.L[1], y.L[2], y.L[3]))
+	boxedEq := or(append(append([]string{sameRef}, cases...), other)...)
+	return and(eq(x.L[0], y.L[0]), ite("(boxedtag "+x.L[0]+")", boxedEq, sameRef))
 }
 
 func (f *FnEnc) indexAddr(fr *Frame, st *State, R string, in *ssa.IndexAddr) {
